@@ -84,7 +84,7 @@ func scenSchedules() []schedule {
 		add(fmt.Sprintf("rec-%d", i), "rec", clusterCfg{N: 4, SRIH: srih, ExtPool: i == 1}, recRounds, 40)
 	}
 	for i, srih := range []bool{false, true} {
-		add(fmt.Sprintf("burst-%d", i), "burst", clusterCfg{N: 4, SRIH: srih}, []scenRound{burst, burst, burst, burst}, 30)
+		add(fmt.Sprintf("burst-%d", i), "burst", clusterCfg{N: 4 + 3*i, SRIH: srih}, []scenRound{burst, burst, burst, burst, burst, burst}, 30)
 	}
 	add("epoch-burst-0", "epoch", clusterCfg{N: 4, SwitchTo: 7, SwitchAt: 14}, []scenRound{{Kind: "epoch-burst"}}, 20)
 	if thorough {
@@ -193,8 +193,11 @@ func (a *attempt) afterFaults(kind string) bool {
 // faultStep switches the network to cfg and logs the step when it ends.
 func (a *attempt) faultStep(cfg netCfg, done func() bool, cap time.Duration) bool {
 	before := a.cl.heights()
-	a.net.setCfg(cfg)
 	ph := int(a.cl.rec.phase.Add(1))
+	if debugLogs {
+		fmt.Printf("%s STEP phase=%d heights=%v %s\n", time.Now().Format("05.000"), ph, before, cfg.summary())
+	}
+	a.net.setCfg(cfg)
 	t0 := time.Now()
 	reached := waitUntil(cap, done)
 	after := a.cl.heights()
@@ -344,7 +347,7 @@ func (a *attempt) backlogBurst(r scenRound) {
 	n := len(cl.nodes)
 	f := (n - 1) / 3
 	lagger := a.sr.Intn(n)
-	k := uint32(2 + a.sr.Intn(3))
+	k := uint32(2 + a.sr.Intn(4))
 	base := cl.heights()[lagger]
 	// (0) the lagger's inbound link stalls; the others go on until it is k
 	// blocks behind and is the primary of view 1 of the next height (so that a
@@ -369,17 +372,35 @@ func (a *attempt) backlogBurst(r scenRound) {
 	c.Cut = setOf(n, cut...)
 	a.faultStep(c, func() bool { return false }, 4*blockTime)
 	behind := maxU32(cl.heights()) - cl.heights()[lagger]
-	// (2) the backlog arrives in one burst; nothing the lagger sends gets through
+	// (2) the backlog arrives in one burst; nothing the lagger sends gets
+	// through, and from now on recovery messages are lost
 	c.Hold = nil
 	c.Mute = setOf(n, lagger)
+	c.Rules = []lossRule{{Types: []string{"RecoveryMessage"}, ViewMin: 0, ViewMax: -1, Pct: 100}}
+	open := maxU32(cl.heights()) + 1
 	a.faultStep(c, func() bool { return false }, 4*blockTime)
 	a.net.count("backlog_rounds", 1)
 	a.net.count("backlog_blocks_behind_at_burst", int64(behind))
-	// (3) the lagger is heard again, recovery messages are lost
+	if cl.commitSenders(open, 0) > 0 {
+		a.net.count("backlog_rounds_with_commit_sent_during_the_burst", 1)
+	}
+	// (3) the lagger is heard again. A validator that knows that it committed
+	// answers its timer with recovery messages only (lost here): nothing can
+	// happen and the step ends early. One that asks for recovery or for a view
+	// change gets the time to carry it through.
 	c.Mute = nil
-	c.Rules = []lossRule{{Types: []string{"RecoveryMessage"}, ViewMin: 0, ViewMax: -1, Pct: 100}}
-	open := maxU32(cl.heights())
-	a.faultStep(c, func() bool { return maxU32(cl.heights()) > open }, 25*blockTime)
+	rm0, ask0 := cl.rec.sentOf(lagger, "RecoveryMessage"), cl.rec.sentOf(lagger, "RecoveryRequest", "ChangeView")
+	t0 := time.Now()
+	a.faultStep(c, func() bool {
+		if maxU32(cl.heights()) >= open {
+			return true
+		}
+		asked := cl.rec.sentOf(lagger, "RecoveryRequest", "ChangeView") > ask0
+		return !asked && time.Since(t0) > 7*blockTime && cl.rec.sentOf(lagger, "RecoveryMessage") > rm0
+	}, 30*blockTime)
+	if cl.rec.sentOf(lagger, "RecoveryRequest", "ChangeView") > ask0 {
+		a.net.count("backlog_rounds_lagger_asked_for_recovery_or_view_change", 1)
+	}
 }
 
 // epochBurst: see the comment at the top of the file.
